@@ -56,7 +56,7 @@ Proof.
   apply Bool.andb_true_iff in T. destruct T as [T1 T2]. apply Z.leb_le in T1. apply Z.ltb_lt in T2.
   unfold D, didx.
   replace ((b * 8 * 8 + x * 8 + i) mod 8) with i
-    by (symmetry; apply (Z.mod_unique_pos _ _ (b * 8 + x)); lia).
+    by (apply (Z.mod_unique_pos _ _ (b * 8 + x)); lia).
   destruct ((2 <=? i) && (i <? 6))%bool eqn:U; [|reflexivity].
   apply Bool.andb_true_iff in U. destruct U as [U1 U2]. apply Z.leb_le in U1. apply Z.ltb_lt in U2. lia.
 Qed.
